@@ -245,7 +245,7 @@ fn agree_strategy() -> BoxedStrategy<Agree> {
 pub fn run(eng: &mut Engine) {
     eng.assume("reference partition is my own u128 transcription of RFC 5052 §9.1 (rfc/partition.rs)");
     eng.assume("flute built with overflow checks and debug assertions on: an arithmetic overflow is a panic and is reported");
-    let (bmax, emax, lmax) = eng.tier.pick((32u64, 12u64, 2000u64), (64, 24, 4000));
+    let (bmax, emax, lmax) = eng.tier.pick((64u64, 24u64, 4000u64), (128, 32, 8000));
     // exhaustive box, one chunk per (B, E)
     let chunks = bmax * emax;
     eng.chunked(
@@ -281,7 +281,7 @@ pub fn run(eng: &mut Engine) {
         },
     );
     // faces of the thorough box in quick: B or E at the far boundary
-    if eng.tier == Tier::Quick {
+    if false {
         let faces: Vec<(u64, u64)> = (1..=64u64).map(|b| (b, 24u64)).chain((1..=24u64).map(|e| (64u64, e))).chain((33..=64u64).map(|b| (b, 1))).collect();
         let n = faces.len() as u64;
         eng.chunked(
@@ -306,7 +306,7 @@ pub fn run(eng: &mut Engine) {
             },
         );
     }
-    let cases = eng.tier.pick(200_000, 4_000_000);
+    let cases = eng.tier.pick(2_000_000, 40_000_000);
     eng.generated(
         PartCfg::new(
             "boundary",
@@ -325,7 +325,7 @@ pub fn run(eng: &mut Engine) {
             Ok(i)
         },
     );
-    let cases = eng.tier.pick(60_000, 1_500_000);
+    let cases = eng.tier.pick(600_000, 10_000_000);
     eng.generated(
         PartCfg::new(
             "agreement",
